@@ -3,11 +3,11 @@ package main
 func init() {
 	register(propSpec{
 		ID: "C14", Pkg: "props/c14", NeedCLI: true, QuickParallel: 3,
-		Rule: "cases: nucleotide and protein alignments, 1-8 rows x 1-12 columns, generated column by column from column kinds (constant, all gaps, all N/X, gaps and N/X only, exact 2-4 way ties among residues padded with gaps/wildcards and shuffled, two characters, one singleton on a constant background, random) over ACGTN- (a quarter with the IUPAC codes RYSWKMBDHV), ARNDLKX-, and their mixed-case versions for the statistics the statement calls case-folded (CharStats, CharStatsSeq, CharStatsSite, MaxCharStats/Consensus); sequence indices -1..n and site indices -1..L; a drawn second alignment or hand-built table as count profile; the first, a chosen row, or an external sequence (also of a wrong length) as reference; pseudo-counts {0, 0.5, 1, 2.25} x log x normalisation {none, frequency, unknown}; and executions of goalign consensus, stats (summary, char, char --per-sequences/--per-sites, maxchar, gaps --unique, mutations --unique/--ref-sequence, mutations list, alleles, --per-sequences), compute entropy (-g, -a), compute pssm (-n, -c, -l), diff --counts (--no-gaps). " +
+		Rule: "cases: nucleotide and protein alignments, 1-8 rows x 1-12 columns, generated column by column from column kinds (constant, all gaps, all N/X, gaps and N/X only, exact 2-4 way ties among residues padded with gaps/wildcards and shuffled, two characters, one singleton on a constant background, random) over ACGTN- (a quarter with the IUPAC codes RYSWKMBDHV), ARNDLKX-, and their mixed-case versions for the statistics the statement calls case-folded (CharStats, CharStatsSeq, CharStatsSite, MaxCharStats/Consensus); sequence indices -1..n and site indices -1..L; a drawn second alignment or hand-built table as count profile; special characters * . ? (X/x in nucleotides) sprinkled into whole columns or single cells of the reference-relative and unique-counter cases; the first, a chosen row, or an external sequence (also of a wrong length) as reference; pseudo-counts {0, 0.5, 1, 2.25} x log x normalisation {none, frequency, unknown}; and executions of goalign consensus, stats (summary, char, char --per-sequences/--per-sites, maxchar, gaps --unique, mutations --unique/--ref-sequence, mutations list, alleles, --per-sequences), compute entropy (-g, -a), compute pssm (-n, -c, -l), diff --counts (--no-gaps). " +
 			"Oracle: naive recomputation from the columns: case-folded counts; count profile entries (upper-case input); the returned majority character must be one of the most frequent among the characters not excluded by ignore-gaps / ignore-N (wildcard of the alignment's own alphabet), occur/total exact, on an excluded-only column one of the kinds present, and MaxCharStats/Consensus must return the same on 30 further calls; entropy -sum p ln p (1e-12, NaN when nothing is counted, bit-identical on 5 further calls); variable sites; informative sites (two characters occurring twice, gaps and wildcard not considered); average alleles; PSSM (count+pseudo)/(n+K*pseudo), log2; residues/gaps unique in their column with unique/new/both against the profile; number and list of substitutions (IUPAC sets disjoint; N/X and, for the count, gaps of the compared sequence never counted), grouped insertions and single deletions with reference coordinates; CountDifferences against the first row; every index outside the alignment must give an error, a panic is a violation; the alignment must be unchanged. " +
 			"Non-trivial: a column with >= 2 distinct counted characters (counts, site measures), a tie for the maximum (majority), a residue or gap unique in its column (unique), a substitution against the reference (reference), the analogous condition per command; distinct = distinct JSON form of the case",
 		Assumptions: []string{
-			"'.' and '*' are not generated (the doc comments exclude them from some statistics and are silent for others)",
+			"'*', '.', '?' (and X/x in nucleotide rows) are drawn at a low rate (a quarter of the cases, a fifth of their columns) in the reference-relative, unique-counter and CountDifferences runs and the corresponding commands: a cell identical to the reference cell is never a substitution, insertion or deletion; a non identical pair with such a character may be counted/listed or not (every combination tried for the list, ambiguous), a unique such character may count as unique mutation or not, an error for '?' in nucleotides is accepted; the other runs do not generate them (the doc comments exclude them from some statistics and are silent for others)",
 			"mixed case only for CharStats, CharStatsSeq, CharStatsSite, MaxCharStats, Consensus (and the commands printing them); NewCountProfileFromAlignment is case sensitive in the code although the statement lists the count profile among the case-folded counts: on mixed-case input it is recorded (class profile:mixed-case-not-asserted), not asserted",
 			"readings accepted where the documentation is silent (counted as ambiguous): whether N/X counts as a character for variable sites and alleles; whether the letter of the other alphabet (X in nucleotides, residue N in proteins) is 'not considered' for informative sites; occur/total on a column where every cell is excluded; whether a reference X makes a protein substitution",
 			"float results are compared with the naive value with tolerance 1e-12 (relative above 1); repeated Entropy calls must be bit-identical (NaN equals NaN); values read from command output are compared with half a unit of the last printed decimal",
